@@ -96,6 +96,7 @@ func (m *FloodSub) Execute(ctx context.Context) error {
 
 	pubbedChannels := make(map[string]struct{})
 	for {
+		verifGate(m, "top")
 		var initSet []*SubscriptionOpts
 		m.mtx.Lock()
 		for i := range m.incSessions {
@@ -138,6 +139,7 @@ func (m *FloodSub) Execute(ctx context.Context) error {
 		}
 		m.incSessions = nil
 		m.mtx.Unlock() // intentional mtx hold-break
+		verifGate(m, "break")
 		initSet = nil
 
 		var xmitPeers []*streamHandler
